@@ -3,12 +3,11 @@
 d=$1; cd $d || exit 2
 export GOPROXY=off
 git diff --quiet -- . ':!seed' && { echo "NO CHANGE APPLIED"; exit 2; }
-git diff -- . ':!seed' > /tmp/w/cur.diff
+git diff -- . ':!seed' > /tmp/w/cur-$$.diff
 go build ./... || { echo "BUILD FAILS"; exit 1; }
 t=$(go test -vet=off -count=1 ./... 2>&1 | grep -v 'no test files' | grep -v '^ok')
-[ -n "$t" ] && { echo "UNIT TESTS FAIL: $t" | head -5; }
-timeout 600 sh seed/demo.sh >/tmp/w/demo.with 2>&1; a=$?
-git stash -q -- $(git diff --name-only -- . ':!seed')
-timeout 600 sh seed/demo.sh >/tmp/w/demo.without 2>&1; b=$?
-git stash pop -q
+timeout 900 sh seed/demo.sh >/tmp/w/demo.with 2>&1; a=$?
+git apply -R /tmp/w/cur-$$.diff
+timeout 900 sh seed/demo.sh >/tmp/w/demo.without 2>&1; b=$?
+git apply /tmp/w/cur-$$.diff; rm -f /tmp/w/cur-$$.diff
 echo "with change: demo exit $a; without: demo exit $b; unit tests: ${t:-pass}; files: $(git diff --name-only -- . ':!seed' | tr '\n' ' ')"
